@@ -14,7 +14,8 @@
  *             <attrs> `.` or `;`-separated `<name>=<value>` / `<name>`, registered in this order
  *   <filter>  hex, `-` = empty string, `N` = NULL; always an exact-size heap object
  *   <windows> `,`-separated `<offset>/<buflen>`; the buffer is an exact-size heap object
- *   output per window:  <bytes hex>:<t|-|e>:<total>[!dirty|!overrun]   joined by `,`
+ *   output: F<own full listing hex>;<window>,<window>,…   with <window> = <bytes>:<t|-|e>:<total>[!dirty|!overrun] where
+ *           <bytes> is `=<n>` when the n bytes written equal full[offset..offset+n) and `x<hex>` otherwise
  */
 #include "coap3/coap_libcoap_build.h"
 #include "coap_resource.c"      /* for the static match() */
@@ -152,6 +153,24 @@ static int make_filter(const char *w, coap_string_t *qs, coap_string_t **q) {
   }
 }
 
+/* the side's own full listing (size probe + full print), printed once per line; a window whose bytes equal
+ * full[offset .. offset+written) is printed as `=<written>`, any other as `x<hex>` */
+static uint8_t *full; static size_t full_len; static int full_ok;
+
+static void get_full(coap_string_t *q) {
+  uint8_t small[4];
+  size_t total = 0, len;
+  coap_print_status_t res = coap_print_wellknown(ctx, small, &total, UINT_MAX, q);
+  full = NULL; full_len = 0; full_ok = 0;
+  if (res & COAP_PRINT_STATUS_ERROR) return;
+  full = (uint8_t *)malloc(total);
+  len = total;
+  res = coap_print_wellknown(ctx, full, &len, 0, q);
+  if ((res & COAP_PRINT_STATUS_ERROR) || COAP_PRINT_OUTPUT_LENGTH(res) > total) return;
+  full_len = COAP_PRINT_OUTPUT_LENGTH(res);
+  full_ok = 1;
+}
+
 static void one_window(coap_string_t *q, size_t offset, size_t buflen) {
   uint8_t *buf = (uint8_t *)malloc(buflen);
   size_t len = buflen, i, outl;
@@ -161,11 +180,16 @@ static void one_window(coap_string_t *q, size_t offset, size_t buflen) {
   res = coap_print_wellknown(ctx, buf, &len, offset, q);
   outl = COAP_PRINT_OUTPUT_LENGTH(res);
   if (res & COAP_PRINT_STATUS_ERROR) {
-    printf("-:e:%zu", len);
+    printf("=0:e:%zu", len);
   } else if (outl > buflen) {
-    printf("-:%s:%zu!overrun", (res & COAP_PRINT_STATUS_TRUNC) ? "t" : "-", len);
+    printf("=0:%s:%zu!overrun", (res & COAP_PRINT_STATUS_TRUNC) ? "t" : "-", len);
   } else {
-    h_puthex(stdout, buf, outl);
+    if (outl == 0 || (full_ok && offset <= full_len && outl <= full_len - offset && !memcmp(buf, full + offset, outl))) {
+      printf("=%zu", outl);
+    } else {
+      fputc('x', stdout);
+      h_puthex(stdout, buf, outl);
+    }
     printf(":%s:%zu", (res & COAP_PRINT_STATUS_TRUNC) ? "t" : "-", len);
     for (i = outl; i < buflen; i++) if (buf[i] != 0xA5) dirty = 1;
     if (dirty) printf("!dirty");
@@ -179,6 +203,10 @@ static void do_wk(char *table, char *filter, char *windows) {
   int first = 1;
   if (!make_filter(filter, &qs, &q)) { printf("bad-op"); return; }
   if (!build_table(table)) { printf("bad-op"); goto out; }
+  get_full(q);
+  fputc('F', stdout);
+  if (full_ok) h_puthex(stdout, full, full_len); else printf("rej");
+  fputc(';', stdout);
   while (*p) {
     char *end;
     size_t off = strtoull(p, &end, 10), bl;
@@ -192,6 +220,7 @@ static void do_wk(char *table, char *filter, char *windows) {
     p = end;
   }
 out:
+  free(full); full = NULL;
   coap_delete_all_resources(ctx);
   free(qs.s);
 }
